@@ -18,7 +18,7 @@ pub struct GenCfg {
 
 impl Default for GenCfg {
     fn default() -> Self {
-        GenCfg { conn_kind: 3, want_space: true, space_isolated: true, max_ids: 4, allow_user: true }
+        GenCfg { conn_kind: 3, want_space: true, space_isolated: false, max_ids: 4, allow_user: true }
     }
 }
 
@@ -218,7 +218,7 @@ pub fn gen_dict(rng: &mut Rng, cfg: &GenCfg) -> ADict {
     rng.shuffle(&mut unk);
 
     let default_line_pos = rng.below(cats.len());
-    ADict { cats, default_line_pos, ranges, lex, user, unk, conn }
+    ADict { cats, default_line_pos, ranges, lex, user, unk, conn, iso: isolated }
 }
 
 pub fn gen_sentence(rng: &mut Rng, d: &ADict, max_len: usize) -> Vec<u32> {
